@@ -135,6 +135,10 @@ func clientMatches(cf *config, rq request) bool {
 		return netip.MustParsePrefix("10.0.0.0/24").Contains(ip)
 	case "clientid":
 		return rq.CID
+	case "clientid-behind-ip":
+		// The ClientID takes precedence over the address, which belongs to
+		// another persistent client without ignore flags.
+		return rq.CID
 	case "ip6zone":
 		// The client is identified by a link-local address with a zone, the form
 		// the listener reports for such a peer.
@@ -204,8 +208,15 @@ func (e *env) runConfig(cf *config, reqs []request) {
 			cs.IDs = []string{"cid-a"}
 		case "ip6zone":
 			cs.IDs = []string{zonedAddr}
+		case "clientid-behind-ip":
+			cs.IDs = []string{"cid-a"}
 		}
 		sp.Clients = []srv.ClientSpec{cs}
+		if cf.Client == "clientid-behind-ip" {
+			for i, a := range []string{"10.0.0.1", "10.0.0.77", "192.168.5.5"} {
+				sp.Clients = append(sp.Clients, srv.ClientSpec{Name: fmt.Sprintf("host%d", i), IDs: []string{a}})
+			}
+		}
 		if cf.Client == "cidr" {
 			// A wider network belongs to another client without ignore flags: the
 			// most specific containing CIDR identifies the client.
@@ -364,7 +375,8 @@ func (macDHCP) MACByIP(ip netip.Addr) net.HardwareAddr {
 
 func allRequests() []request {
 	var out []request
-	for _, n := range []string{"ignored.test", "IGNORED.Test", "sub.ignored.test", "other.test"} {
+	// "Zz.ignored.test": the only capital letter is the last of the alphabet.
+	for _, n := range []string{"ignored.test", "IGNORED.Test", "sub.ignored.test", "other.test", "Zz.ignored.test"} {
 		for _, a := range []string{"10.0.0.1", "10.0.0.77", "192.168.5.5", "2001:db8:aa:bb:1234:5678:9abc:def0", "::ffff:10.0.0.1", zonedAddr} {
 			for _, cid := range []bool{false, true} {
 				out = append(out, request{Name: n, Qtype: "A", Addr: a, CID: cid})
@@ -390,7 +402,7 @@ func run(c *lib.Ctx) {
 	}
 	for _, g := range igs {
 		for _, anon := range []string{"off", "on", "on-by-api"} {
-			for _, cl := range []string{"none", "ip", "cidr", "mac", "clientid", "ip6zone"} {
+			for _, cl := range []string{"none", "ip", "cidr", "mac", "clientid", "ip6zone", "clientid-behind-ip"} {
 				for _, flags := range [][2]bool{{false, false}, {true, false}, {false, true}, {true, true}} {
 					if cl == "none" && (flags[0] || flags[1]) {
 						continue
@@ -427,6 +439,9 @@ func run(c *lib.Ctx) {
 	}
 	if c.Mine(3) {
 		e.flagsPass()
+	}
+	if c.Mine(4) {
+		e.rejectedPass()
 	}
 }
 
@@ -705,6 +720,52 @@ func (e *env) flagsPass() {
 	c.Distinct("nontrivial", "flags")
 }
 
+// rejectedPass: a configuration update that is refused changes nothing.  With
+// anonymisation on, updates that ask for it to be switched off but are refused
+// for another reason (interval out of range, "enabled" missing, a malformed
+// ignore entry) must leave every later address anonymised.
+func (e *env) rejectedPass() {
+	c := e.c
+	for _, bad := range []string{
+		`{"enabled":true,"anonymize_client_ip":false,"interval":1,"ignored":[]}`,
+		`{"anonymize_client_ip":false,"interval":86400000,"ignored":[]}`,
+		`{"enabled":true,"anonymize_client_ip":false,"interval":86400000,"ignored":["||bad rule with spaces^$$"]}`,
+		`{"enabled":true,"anonymize_client_ip":false,"interval":86400000}`,
+	} {
+		dir, _ := os.MkdirTemp(e.dir, "c08r-")
+		qh := handlers{}
+		eng, _ := aghnet.NewIgnoreEngine(nil)
+		mut := aghnet.NewIPMut(querylog.AnonymizeIP)
+		ql, _ := querylog.New(querylog.Config{Logger: srv.Discard, Ignored: eng, Anonymizer: mut, ConfigModified: func() {}, HTTPRegister: qh.reg,
+			FindClient: func([]string) (*querylog.Client, error) { return nil, nil }, BaseDir: dir, RotationIvl: 24 * time.Hour, MemSize: 100, Enabled: true, FileEnabled: true, AnonymizeClientIP: true})
+		querylog.VerifC08InitWeb(ql)
+		a, err := srv.Build(&srv.Spec{Mode: filtering.BlockingModeDefault, ProtectionEnabled: true, FilteringEnabled: true, QueryLog: ql, Anonymizer: mut})
+		if err != nil {
+			panic(err)
+		}
+		code, _ := qh.call(http.MethodPut, "/control/querylog/config/update", bad)
+		c.Count("evals", 1)
+		cs := caseC{Conf: config{Client: "rejected:querylog", Anon: "on"}, Obs: bad}
+		if code == http.StatusOK {
+			// Accepted after all: then anonymisation is off by request; not a case.
+			c.Count("rejected_pass_update_accepted", 1)
+		} else {
+			req := &dns.Msg{MsgHdr: dns.MsgHdr{Id: 7}, Question: []dns.Question{{Name: "example.org.", Qtype: dns.TypeA, Qclass: dns.ClassINET}}}
+			_, _ = a.QueryCtx(&proxy.DNSContext{Req: req, Proto: proxy.ProtoUDP, Addr: netip.MustParseAddrPort("198.51.100.77:4000")})
+			_, body := qh.call(http.MethodGet, "/control/querylog", "")
+			_ = querylog.VerifC08Flush(ql)
+			file, _ := os.ReadFile(filepath.Join(dir, "querylog.json"))
+			if strings.Contains(string(body), "198.51.100.77") || strings.Contains(string(file), "198.51.100.77") {
+				c.Violation("address-not-anonymized:after-refused-update", fmt.Sprintf("anonymisation is on; the update %s was refused with HTTP %d; the next query is stored or reported with its full address 198.51.100.77", bad, code), cs)
+			}
+		}
+		a.Close()
+		_ = ql.Shutdown(context.Background())
+		os.RemoveAll(dir)
+	}
+	c.Distinct("nontrivial", "rejected")
+}
+
 // savedPass: an ignore list changed through the configuration API must also
 // be what the configuration writer is handed: package home writes the file
 // from inside the ConfigModified callback by asking each module for its
@@ -798,6 +859,8 @@ func replay(c *lib.Ctx, raw json.RawMessage) string {
 		e.savedPass()
 	} else if strings.HasPrefix(cs.Conf.Client, "flags:") {
 		e.flagsPass()
+	} else if strings.HasPrefix(cs.Conf.Client, "rejected:") {
+		e.rejectedPass()
 	} else {
 		e.runConfig(&cs.Conf, []request{cs.Req})
 	}
